@@ -1,0 +1,9 @@
+//go:build verif
+
+// Verification hooks: exported wrappers around unexported functions.
+// Compiled only with the build tag "verif"; adds no behaviour.
+package chore
+
+func VerifUpdateRules(version string, year string, contents []byte) ([]byte, error) {
+	return updateRules(version, year, contents)
+}
